@@ -1719,8 +1719,31 @@ class Explorer(_BaseCtx):
             r4, m4 = self._check(z3.Or(a_ - b_ >= margin, b_ - a_ >= margin))
             if r4 == z3.sat:
                 m = m4
+        # two more, different, counterexamples: a model may fail to replay in float64 for incidental reasons (values that
+        # coincide within the replay tolerance); the violation is confirmed if any of them reproduces
+        alt = []
+        try:
+            self.solver.push()
+            self.solver.add(z3.Not(fs))
+            cur = m
+            for _ in range(2):
+                reals = [v for nm, v in self.vars.items() if z3.is_real(v) and not nm.startswith("_")][:12]
+                if not reals:
+                    break
+                self.solver.add(z3.Or(*[v != cur.eval(v, model_completion=True) for v in reals]))
+                t0 = time.perf_counter()
+                rr = self.solver.check()
+                self.stats["solver_s"] += time.perf_counter() - t0
+                if rr != z3.sat:
+                    break
+                cur = self.solver.model()
+                alt.append(self.model_dict(cur))
+        except z3.Z3Exception:
+            pass
+        finally:
+            self.solver.pop()
         self.violations.append(dict(kind="obligation", label=label, model=self.model_dict(m), decisions=list(self.trace),
-                                    formula=str(f)[:2000]))
+                                    formula=str(f)[:2000], alt_models=alt))
         return False
 
     def _retry_unknown(self, fs):
